@@ -246,8 +246,12 @@ def gen_dataset(prop: str, idx: int) -> dict:
     # ---- files --------------------------------------------------------
     n_files = rng.choice([1, 2, 3])
     per_file: list[dict] = [dict() for _ in range(n_files)]  # wf -> spans
+    # export order: half of the data sets keep every trace in one file with
+    # its spans in emission order (the usual exporter behaviour), the others
+    # scatter and shuffle them
+    in_order = rng.random() < 0.5
     for t in traces:
-        whole = rng.random() < 0.7
+        whole = in_order or rng.random() < 0.7
         f0 = rng.randrange(n_files)
         used = set()
         for s in t["spans"]:
@@ -274,15 +278,16 @@ def gen_dataset(prop: str, idx: int) -> dict:
         rs = []
         for wf, spans in groups.items():
             spans = list(spans)
-            rng.shuffle(spans)
+            if not in_order:
+                rng.shuffle(spans)
             # one or two resource_spans groups per workflow, 1-2 scopes each
             parts = [spans]
-            if len(spans) > 2 and rng.random() < 0.4:
+            if not in_order and len(spans) > 2 and rng.random() < 0.4:
                 c = rng.randint(1, len(spans) - 1)
                 parts = [spans[:c], spans[c:]]
             for part in parts:
                 scopes = [part]
-                if len(part) > 1 and rng.random() < 0.4:
+                if not in_order and len(part) > 1 and rng.random() < 0.4:
                     c = rng.randint(1, len(part) - 1)
                     scopes = [part[:c], part[c:]]
                 rs.append({
